@@ -960,8 +960,10 @@ class ICalendarFile(File):
                 except KeyError:
                     pass
                 else:
-                    if p is not None:
-                        yield p.to_ical()
+                    # A property that occurs more than once is a list
+                    for v in p if isinstance(p, list) else [p]:
+                        if v is not None:
+                            yield v.to_ical()
             else:
                 raise AssertionError(f"segments: {segments!r}")
 
